@@ -410,14 +410,16 @@ Proof.
   unfold try_restarted. destruct (get s u) as [a|] eqn:Ea; [|intros H; inversion H; subst; auto].
   destruct (a_children a); [|intros H; inversion H; subst; auto].
   destruct (a_st a); try (intros H; inversion H; subst; auto; fail).
-  intros H Hi HW. revert H Hi. apply bind_WI.
-  - intros sa oa pa E Hia. eapply WI_handle; [exact E|exact Hia|exact HW].
+  destruct (provide s (a_tok a)) as [s0 inst] eqn:Ep.
+  intros H Hi HW. assert (W0 : WI s0) by (change s0 with (fst (s0, inst)); rewrite <- Ep; apply WI_provide; exact HW).
+  revert H Hi. apply bind_WI.
+  - intros sa oa pa E Hia. eapply WI_handle; [exact E|exact Hia|exact W0].
   - intros s1 o1 sb ob pb _ W1. apply bind_WI.
     + intros sa oa pa E Hia. eapply WI_handle; [exact E|exact Hia|exact W1].
-    + intros s2 o2 sc oc pc _ W2. destruct (provide s2 (a_tok a)) as [s3 inst] eqn:Ep.
+    + intros s2 o2 sc oc pc _ W2.
       intros E Hi3. eapply WI_start_instance; [exact E|exact Hi3|].
       apply WI_deliver_plain; [discriminate|intros w; discriminate|].
-      apply WI_upd_actor; [wp|]. change s3 with (fst (s3, inst)). rewrite <- Ep. apply WI_provide. exact W2.
+      apply WI_upd_actor; [wp|]. exact W2.
 Qed.
 
 Lemma WI_apply_directive s u r d snd s' o p : apply_directive roles s u r d snd = (s', o, p) -> incl o tr -> WI s -> WI s'.
@@ -749,11 +751,12 @@ Proof.
   unfold try_restarted. destruct (get s u) as [a|]; [|intros H; inversion H; subst; reflexivity].
   destruct (a_children a); [|intros H; inversion H; subst; reflexivity].
   destruct (a_st a); try (intros H; inversion H; subst; reflexivity).
+  destruct (provide s (a_tok a)) as [s0 inst].
   apply bind_nt.
   - intros s1 o1 p1 E. eapply nt_handle; [|exact E]. intros w; discriminate.
   - intros s1 s2 o2 p2. apply bind_nt.
     + intros sa oa pa E. eapply nt_handle; [|exact E]. intros w; discriminate.
-    + intros sa sb ob pb. destruct (provide sa (a_tok a)). unfold start_instance.
+    + intros sa sb ob pb. unfold start_instance.
       match goal with |- context [handle roles ?x u TRD 0%nat ?y] => destruct (handle roles x u TRD 0%nat y) as [[sc oc] pc] eqn:Ec end.
       destruct (handle roles sc u TL 0%nat (a_parent a)) as [[sd od] pd] eqn:Ed. intros H; inversion H; subst.
       apply nt_app; [eapply nt_handle; [|exact Ec]; intros w; discriminate|eapply nt_handle; [|exact Ed]; intros w; discriminate].
